@@ -1,6 +1,6 @@
 (* C19 model driver. Case line (sections separated by '|'):
      <n> <k> | <valid mask, n chars 0/1, or -> | <scripts: e:op,op;e:op or -> | <ops: op,op,... or ->
-   op ::= W e t | F e dt | C e dt | U e t | G e dt | D e dt | E e | N m | T t | P t | L t1 d m c   (P, L only at top level;
+   op ::= W e t | F e dt | C e dt | U e t | G e dt | D e dt | E e | N m | T t | P t | L t1 d m c   | X e t | Y e | Z e t   (P, L, X, Y, Z only at top level; X/Z/Y = wait_until/update_wait_until/erase on a SECOND scheduler;
          L = one Thread::event_loop iteration: clock t1, call_events takes d and runs script c (or -), thread next_timeout() = m)
    Output: one token per top-level op ('.', ERR:internal, N=<r>, P[<fired entry | N=r | ERR:internal | FUEL>*])
            then '| S[e:due ...] H[time:entry|- ...]' (final scheduled entries and the raw heap array). *)
@@ -15,6 +15,11 @@ let parse_bop toks = match toks with
   | ["N"; m] -> NextTimeout (z_of_string m)
   | ["T"; t] -> SetNow (z_of_string t)
   | _ -> failwith "bop"
+let parse_op2 s = match split_ws s with
+  | ["X"; e; t] -> OnB (WaitUntil (nat_of_int (int_of_string e), z_of_string t))
+  | ["Z"; e; t] -> OnB (UpdUntil (nat_of_int (int_of_string e), z_of_string t))
+  | ["Y"; e] -> OnB (Erase (nat_of_int (int_of_string e)))
+  | _ -> failwith "op2"
 let parse_op s = match split_ws s with
   | ["P"; t] -> Perform (z_of_string t)
   | ["L"; t1; d; m; c] -> Loop (z_of_string t1, z_of_string d, z_of_string m,
@@ -45,12 +50,13 @@ let () = each_line (fun line ->
                   let body = String.sub sc (i + 1) (String.length sc - i - 1) in
                   tbl.(e) <- List.map (fun o -> parse_bop (split_ws o)) (split_list ',' body)
       | None -> failwith "script") (split_list ';' scr);
-    let env = { e_scr = Array.to_list tbl; e_valid = valids; e_fuel = nat_of_int k } in
-    let ops = List.map parse_op (split_list ',' ops) in
-    let (s, outs) = run env (init (nat_of_int n)) ops in
-    let toks = List.map2 show_evs ops outs in
-    let sched = List.filter_map (fun e -> match due_of s (nat_of_int e) with
-      | Some d -> Some (Printf.sprintf "%d:%s" e (string_of_z d)) | None -> None) (List.init n (fun i -> i)) in
+    let env = { e_scr = Array.to_list tbl; e_valid = valids; e_fuel = nat_of_int k; e_foreign = [] } in
+    let ops2 = List.map (fun o -> match (String.trim o).[0] with
+      | 'X' | 'Y' | 'Z' -> parse_op2 o | _ -> OnA (parse_op o)) (split_list ',' ops) in
+    let ((s, sb), outs) = run2 env (init (nat_of_int n), init (nat_of_int n)) ops2 in
+    let toks = List.map2 (fun o evs -> match o with OnA o -> show_evs o evs | OnB b -> show_evs (Basic b) evs) ops2 outs in
+    let sched = List.filter_map (fun e -> match due_of s (nat_of_int e), due_of sb (nat_of_int e) with
+      | Some d, _ | None, Some d -> Some (Printf.sprintf "%d:%s" e (string_of_z d)) | None, None -> None) (List.init n (fun i -> i)) in
     let hp = List.map (fun h -> string_of_z h.h_time ^ ":" ^
       (match h.h_entry with Some e -> string_of_int (int_of_nat e) | None -> "-")) s.heap in
     String.concat " " toks ^ " | S[" ^ String.concat " " sched ^ "] H[" ^ String.concat " " hp ^ "]"
